@@ -150,7 +150,8 @@ Record bopts : Type := mkB {
   b_start : N;                  (* start_production *)
   b_lr1 : bool;                 (* itemset_type is LR_1 *)
   b_ps : bool;                  (* prefer_shifts *)
-  b_pse : bool                  (* prefer_shifts_over_empty *)
+  b_pse : bool;                 (* prefer_shifts_over_empty *)
+  b_lexdis : bool               (* lexical_disambiguation handed to LRTable (finish flags) *)
 }.
 
 (* the static part of a grammar *)
@@ -219,13 +220,14 @@ Section Build.
     else Ok tb.
 
   (* Parser.__init__: the LAYOUT sub-parser is an LR Parser with LALR tables and both
-     prefer_shifts strategies; it is built (and checked) before the main table *)
+     prefer_shifts strategies; it is built (and checked) before the main table.
+     lexical_disambiguation defaults to True for Parser and False for GLRParser *)
   Definition parser_init (gs : gstate) (o : popts) : gstate * result (table * option table) :=
     let '(gs1, lay) :=
       match s_layout G with
       | None => (gs, Ok None)
       | Some lp =>
-          match create_table gs (mkB lp true true true) with
+          match create_table gs (mkB lp true true true true) with
           | (gs', Ok ltb) =>
               match check_parser false ltb with
               | Ok t => (gs', Ok (Some t))
@@ -237,7 +239,7 @@ Section Build.
     match lay with
     | Raise e => (gs1, Raise e)
     | Ok lt =>
-        match create_table gs1 (mkB 1 (negb (o_slr o)) (o_ps o) (o_pse o)) with
+        match create_table gs1 (mkB 1 (negb (o_slr o)) (o_ps o) (o_pse o) (negb (o_glr o))) with
         | (gs2, Ok tb) =>
             match check_parser (o_glr o) tb with
             | Ok t => (gs2, Ok (t, lt))
